@@ -31,6 +31,7 @@ Positions(kind) ==
     [] kind = "min_n_cycles" -> {"negative", "zero", "inside"}
     [] kind = "amp_threshes" -> {"reversed", "equal", "ordered", "negative_low"}
     [] kind = "option"       -> {"valid1", "valid2", "unknown"}
+    [] kind = "option_in_degenerate_context" -> {"unknown"}      \* an unknown option must be rejected whatever the other inputs are
     [] kind = "ndim"         -> {"too_few", "ok", "too_many"}
     [] OTHER                 -> {"before_fit", "after_fit"}          \* plot
 ValidPos(kind, pos) ==
@@ -39,6 +40,7 @@ ValidPos(kind, pos) ==
     [] kind = "min_n_cycles" -> pos \in {"zero", "inside"}
     [] kind = "amp_threshes" -> pos \in {"equal", "ordered"}
     [] kind = "option"       -> pos \in {"valid1", "valid2"}
+    [] kind = "option_in_degenerate_context" -> FALSE
     [] kind = "ndim"         -> pos = "ok"
     [] OTHER                 -> pos = "after_fit"
 =============================================================================
